@@ -737,6 +737,223 @@ theorem postTreatDot_parentsHaveInit (fm : FileMap) (h : (fm.find? (·.1.isInit)
       exact ⟨d, List.mem_flatMap.mpr ⟨e, he, nonemptyPrefixes_trans hd'e hd⟩, rfl⟩
 
 
+/-! ### the names `__change_from_import` gives to imports -/
+
+theorem firstFree_fresh {name : List Char} {tk : List (List Char)} {fuel k : Nat} {u : List Char}
+    (h : firstFree name tk fuel k = some u) : u ∉ tk := by
+  induction fuel generalizing k with
+  | zero => simp [firstFree] at h
+  | succ f ih =>
+    simp only [firstFree] at h
+    split at h
+    · exact ih h
+    · next hc =>
+      cases h
+      simpa using hc
+
+theorem firstFree_zero {name : List Char} {tk : List (List Char)} {fuel : Nat} {u : List Char}
+    (h : firstFree name tk fuel 0 = some u) : u = name ∨ name ∈ tk := by
+  cases fuel with
+  | zero => simp [firstFree] at h
+  | succ f =>
+    have h0 : aliasCandidate name 0 = name := rfl
+    simp only [firstFree] at h
+    by_cases hc : tk.contains (aliasCandidate name 0) = true
+    · rw [h0] at hc
+      exact .inr (by simpa using hc)
+    · rw [if_neg hc] at h
+      cases h; exact .inl h0
+
+theorem uniqueName_fresh {s : Scope} {name u : List Char} (h : s.uniqueName name = some u) : u ∉ s.taken :=
+  firstFree_fresh h
+
+theorem uniqueName_name_taken {s : Scope} {name u : List Char} (h : s.uniqueName name = some u) :
+    u = name ∨ name ∈ s.taken :=
+  firstFree_zero h
+
+/-- (a) every class name of the module is taken: excluded, or the name of a class entry -/
+def ClassesTaken (P C : List (List Char)) (s : Scope) : Prop :=
+  ∀ c ∈ C, c ∈ s.excl ∨ ∃ e ∈ s.refs, e.key ∈ P ∧ e.name = c
+
+/-- (b) no entry that is not a class entry carries a class name -/
+def ForeignClean (P C : List (List Char)) (s : Scope) : Prop :=
+  ∀ e ∈ s.refs, e.key ∉ P → e.name ∉ C
+
+theorem ClassesTaken.mem_taken {P C : List (List Char)} {s : Scope} (h : ClassesTaken P C s)
+    {c : List Char} (hc : c ∈ C) : c ∈ s.taken := by
+  unfold Scope.taken
+  rcases h c hc with h | ⟨e, he, _, hn⟩
+  · exact List.mem_append_right _ h
+  · exact List.mem_append_left _ (List.mem_map.mpr ⟨e, he, hn⟩)
+
+/-- one call of the second loop: a key that is not a class key gets a name that is no class name, and
+both invariants survive -/
+theorem add_foreign {vn : List Char → List Char} {P C : List (List Char)} {s s' : Scope}
+    {key imp n : List Char} (ha : ClassesTaken P C s) (hb : ForeignClean P C s) (hk : key ∉ P)
+    (h : s.add vn key imp = (s', some n)) :
+    n ∉ C ∧ ClassesTaken P C s' ∧ ForeignClean P C s' := by
+  unfold Scope.add at h
+  split at h
+  · next r hf =>
+    have hr : r ∈ s.refs := List.mem_of_find?_eq_some hf
+    have hrk : r.key = key := by simpa using List.find?_some hf
+    split at h
+    · -- the reference exists and is returned as it is
+      cases h
+      exact ⟨hb r hr (by rw [hrk]; exact hk), ha, hb⟩
+    · split at h
+      · cases h
+      · next u hu =>
+        cases h
+        have hfresh : n ∉ C := fun hc => uniqueName_fresh hu (ha.mem_taken hc)
+        refine ⟨hfresh, ?_, ?_⟩
+        · intro c hc
+          rcases ha c hc with h1 | ⟨e, he, hep, hen⟩
+          · exact .inl h1
+          · refine .inr ⟨e, ?_, hep, hen⟩
+            refine List.mem_map.mpr ⟨e, he, ?_⟩
+            have : e.key ≠ key := fun heq => hk (heq ▸ hep)
+            simp [this]
+        · intro e' he' hkey'
+          obtain ⟨e, he, rfl⟩ := List.mem_map.mp he'
+          by_cases hek : e.key = key
+          · simp only [hek, if_true]; exact hfresh
+          · simp only [hek, if_false] at hkey' ⊢
+            exact hb e he hkey'
+  · split at h
+    · cases h
+    · next u hu =>
+      cases h
+      have hfresh : n ∉ C := fun hc => uniqueName_fresh hu (ha.mem_taken hc)
+      refine ⟨hfresh, ?_, ?_⟩
+      · intro c hc
+        rcases ha c hc with h1 | ⟨e, he, hep, hen⟩
+        · exact .inl h1
+        · exact .inr ⟨e, List.mem_append_left _ he, hep, hen⟩
+      · intro e he hkey
+        rcases List.mem_append.mp he with he | he
+        · exact hb e he hkey
+        · simp only [List.mem_singleton] at he
+          subst he
+          exact hfresh
+
+theorem allocate_avoids {vn : List Char → List Char} {P C : List (List Char)} :
+    ∀ (reqs : List (List Char × List Char)) (s : Scope) (names : List (List Char)),
+      ClassesTaken P C s → ForeignClean P C s → (∀ r ∈ reqs, r.1 ∉ P) →
+      allocate vn s reqs = some names → ∀ n ∈ names, n ∉ C := by
+  intro reqs
+  induction reqs with
+  | nil =>
+    intro s names _ _ _ h n hn
+    simp only [allocate, Option.some.injEq] at h
+    subst h
+    cases hn
+  | cons r rest ih =>
+    intro s names ha hb hk h n hn
+    obtain ⟨key, imp⟩ := r
+    simp only [allocate] at h
+    split at h
+    · next s' n0 hadd =>
+      obtain ⟨h1, ha', hb'⟩ := add_foreign ha hb (hk (key, imp) (List.mem_cons_self ..)) hadd
+      cases hrest : allocate vn s' rest with
+      | none => rw [hrest] at h; cases h
+      | some tail =>
+        rw [hrest] at h
+        simp only [Option.map_some, Option.some.injEq] at h
+        subst h
+        rcases List.mem_cons.mp hn with hn | hn
+        · subst hn; exact h1
+        · exact ih s' tail ha' hb' (fun r hr => hk r (List.mem_cons_of_mem _ hr)) hrest n hn
+    · cases h
+
+/-- the first loop: starting from a state whose entries are all class entries, registering further classes
+(new, pairwise different keys, all in `P`; valid names) leaves every one of their names taken -/
+theorem preRegister_takes {vn : List Char → List Char} {P : List (List Char)} :
+    ∀ (classes : List (List Char × List Char)) (C0 : List (List Char)) (s s' : Scope),
+      (∀ e ∈ s.refs, e.key ∈ P) → ClassesTaken P C0 s →
+      (∀ pc ∈ classes, pc.1 ∈ P ∧ vn pc.2 = pc.2) →
+      (classes.map (·.1)).Nodup → (∀ pc ∈ classes, pc.1 ∉ s.refs.map (·.key)) →
+      preRegister vn s classes = some s' →
+      (∀ e ∈ s'.refs, e.key ∈ P) ∧ ClassesTaken P (C0 ++ classes.map (·.2)) s' := by
+  intro classes
+  induction classes with
+  | nil =>
+    intro C0 s s' hall ha _ _ _ h
+    simp only [preRegister, Option.some.injEq] at h
+    subst h
+    exact ⟨hall, by simpa using ha⟩
+  | cons pc rest ih =>
+    intro C0 s s' hall ha hP hnd hnew h
+    obtain ⟨key, cls⟩ := pc
+    simp only [preRegister] at h
+    split at h
+    · next s1 n0 hadd =>
+      have hkP := (hP (key, cls) (List.mem_cons_self ..)).1
+      have hvn := (hP (key, cls) (List.mem_cons_self ..)).2
+      have hknew : key ∉ s.refs.map (·.key) := hnew (key, cls) (List.mem_cons_self ..)
+      -- the key is new: `find?` answers none
+      have hfind : s.refs.find? (fun e => e.key = key) = none := by
+        rw [List.find?_eq_none]
+        intro e he hek
+        exact hknew (List.mem_map.mpr ⟨e, he, by simpa using hek⟩)
+      unfold Scope.add at hadd
+      rw [hfind] at hadd
+      dsimp only at hadd
+      rw [hvn] at hadd
+      split at hadd
+      · cases hadd
+      · next u hu =>
+        cases hadd
+        simp only [List.map_cons, List.nodup_cons] at hnd
+        have hall1 : ∀ e ∈ (s.refs ++ [⟨key, if cls = [] then n0 else cls, n0⟩]), e.key ∈ P := by
+          intro e he
+          rcases List.mem_append.mp he with he | he
+          · exact hall e he
+          · simp only [List.mem_singleton] at he; subst he; exact hkP
+        have ha1 : ClassesTaken P (C0 ++ [cls]) ⟨s.refs ++ [⟨key, if cls = [] then n0 else cls, n0⟩], s.excl⟩ := by
+          intro c hc
+          rcases List.mem_append.mp hc with hc | hc
+          · rcases ha c hc with h1 | ⟨e, he, hep, hen⟩
+            · exact .inl h1
+            · exact .inr ⟨e, List.mem_append_left _ he, hep, hen⟩
+          · simp only [List.mem_singleton] at hc
+            subst hc
+            rcases uniqueName_name_taken hu with h1 | h1
+            · exact .inr ⟨⟨key, if c = [] then n0 else c, n0⟩, List.mem_append_right _ (List.mem_singleton.mpr rfl), hkP, h1⟩
+            · unfold Scope.taken at h1
+              rcases List.mem_append.mp h1 with h1 | h1
+              · obtain ⟨e, he, hen⟩ := List.mem_map.mp h1
+                exact .inr ⟨e, List.mem_append_left _ he, hall e he, hen⟩
+              · exact .inl h1
+        have := ih (C0 ++ [cls]) _ s' hall1 ha1 (fun pc hpc => hP pc (List.mem_cons_of_mem _ hpc)) hnd.2
+          (by
+            intro pc hpc hmem
+            simp only [List.map_append, List.map_cons, List.map_nil, List.mem_append, List.mem_singleton] at hmem
+            rcases hmem with hmem | hmem
+            · exact hnew pc (List.mem_cons_of_mem _ hpc) hmem
+            · exact hnd.1 (List.mem_map.mpr ⟨pc, hpc, hmem⟩))
+          h
+        refine ⟨this.1, ?_⟩
+        simpa [List.append_assoc] using this.2
+    · cases h
+
+/-- the two loops together -/
+theorem importNames_avoid {vn : List Char → List Char} {excl : List (List Char)}
+    {classes reqs : List (List Char × List Char)} {names : List (List Char)}
+    (hv : ∀ pc ∈ classes, vn pc.2 = pc.2) (hnd : (classes.map (·.1)).Nodup)
+    (hk : ∀ r ∈ reqs, r.1 ∉ classes.map (·.1))
+    (h : importNames vn excl classes reqs = some names) : ∀ n ∈ names, n ∉ classes.map (·.2) := by
+  unfold importNames at h
+  split at h
+  · next s hs =>
+    have hpre := preRegister_takes (vn := vn) (P := classes.map (·.1)) classes [] ⟨[], excl⟩ s
+      (by intro e he; cases he) (by intro c hc; cases hc)
+      (fun pc hpc => ⟨List.mem_map.mpr ⟨pc, hpc, rfl⟩, hv pc hpc⟩) hnd (by intro pc _ hm; cases hm) hs
+    have ha : ClassesTaken (classes.map (·.1)) (classes.map (·.2)) s := by simpa using hpre.2
+    have hb : ForeignClean (classes.map (·.1)) (classes.map (·.2)) s := fun e he hne => absurd (hpre.1 e he) hne
+    exact allocate_avoids reqs s names ha hb hk h
+  · cases h
+
 /-! ### sanitize_module_name -/
 
 theorem sanitize_shape (name : List Char) (h : name ≠ []) :
@@ -770,5 +987,45 @@ theorem sanitize_shape (name : List Char) (h : name ≠ []) :
       simp only [Bool.not_eq_true] at hd
       simp [hd]
       simpa using hall'
+
+/-- every character of a sanitised name is ASCII (so the name is a fixed point of the NFKC normalisation
+the compiler applies to identifiers) -/
+theorem sanitize_ascii (t : Bool) (name : List Char) :
+    (sanitizeModuleName t name).all (fun c => decide (c.toNat < 128)) = true := by
+  have hchar : ∀ c : Char, (isAsciiAlnum c || c == '_' || (t && c == '.')) = true → c.toNat < 128 := by
+    intro c h
+    simp only [Bool.or_eq_true, Bool.and_eq_true, beq_iff_eq, isAsciiAlnum, decide_eq_true_eq] at h
+    rcases h with (h | h) | h
+    · have tn : ∀ {a b : Char}, a ≤ b → a.toNat ≤ b.toNat := fun hab => UInt32.le_iff_toNat_le.mp (Char.le_def.mp hab)
+      have e9 : ('9' : Char).toNat = 57 := rfl
+      have ez : ('z' : Char).toNat = 122 := rfl
+      have eZ : ('Z' : Char).toNat = 90 := rfl
+      rcases h with h | h | h
+      · have := tn h.2; omega
+      · have := tn h.2; omega
+      · have := tn h.2; omega
+    · subst h; decide
+    · rw [h.2]; decide
+  have hmap : ∀ l : List Char,
+      (l.map (fun c => if isAsciiAlnum c || c == '_' || (t && c == '.') then c else '_')).all
+        (fun c => decide (c.toNat < 128)) = true := by
+    intro l
+    simp only [List.all_map, List.all_eq_true, Function.comp, decide_eq_true_eq]
+    intro x _
+    split
+    · next h => exact hchar x h
+    · decide
+  unfold sanitizeModuleName
+  dsimp only
+  generalize hs : List.map (fun c => if isAsciiAlnum c || c == '_' || (t && c == '.') then c else '_') name = r
+  have hr : r.all (fun c => decide (c.toNat < 128)) = true := hs ▸ hmap name
+  cases r with
+  | nil => rfl
+  | cons c rest =>
+    dsimp only
+    split
+    · simp only [List.all_cons, Bool.and_eq_true]
+      exact ⟨by decide, by simpa using hr⟩
+    · exact hr
 
 end Dcg.Proofs.Modules
